@@ -1088,8 +1088,9 @@ static JanetSignal run_vm(JanetFiber *fiber, Janet in) {
                 vm_commit();
                 vm_do_trace(func, fiber->stacktop - fiber->stackstart, fiber->data + fiber->stackstart);
             }
+            /* The frame constructor raises when the new frame cannot fit: record pc first */
+            vm_commit();
             if (janet_fiber_funcframe_tail(fiber, func)) {
-                janet_stack_frame(fiber->data + fiber->frame)->pc = pc;
                 int32_t n = fiber->stacktop - fiber->stackstart;
                 janet_panicf("%v called with %d argument%s, expected %d",
                              callee, n, n == 1 ? "" : "s", func->def->arity);
